@@ -619,7 +619,31 @@ func (h *h2Hist) opJunk(c *h2Client) {
 	k := c.key()
 	h.tid++
 	var raw []byte
-	switch h.rng.Intn(4) {
+	var more [][]byte
+	odd := false
+	switch h.rng.Intn(6) {
+	case 4, 5:
+		odd = true
+		// every (method, class) pair without a handler: indications other than Send, responses of any method
+		meths := []stun.Method{stun.MethodBinding, stun.MethodAllocate, stun.MethodRefresh, stun.MethodCreatePermission, stun.MethodChannelBind,
+			stun.MethodConnect, stun.MethodConnectionBind, stun.MethodConnectionAttempt, stun.MethodData, stun.MethodSend, stun.Method(0x0ff)}
+		classes := []stun.MessageClass{stun.ClassIndication, stun.ClassSuccessResponse, stun.ClassErrorResponse}
+		for {
+			m, cl := meths[h.rng.Intn(len(meths))], classes[h.rng.Intn(len(classes))]
+			if m == stun.MethodSend && cl == stun.ClassIndication {
+				continue
+			}
+			h.vt.Stat(fmt.Sprintf("junk.%s.%s", strings.ReplaceAll(m.String(), " ", ""), strings.ReplaceAll(cl.String(), " ", "")))
+			if raw == nil {
+				raw = h.build(stun.NewType(m, cl), h.tid, nil)
+				continue
+			}
+			h.tid++
+			more = append(more, h.build(stun.NewType(m, cl), h.tid, nil))
+			if len(more) == 3 {
+				break
+			}
+		}
 	case 0:
 		raw = h.build(stun.NewType(stun.MethodData, stun.ClassIndication), h.tid, nil)
 	case 1:
@@ -629,10 +653,15 @@ func (h *h2Hist) opJunk(c *h2Client) {
 	default:
 		raw = h.build(stun.NewType(stun.Method(0x0ff), stun.ClassRequest), h.tid, nil)
 	}
-	if c.conn == nil && h.rng.Intn(2) == 0 {
+	if !odd && c.conn == nil && h.rng.Intn(2) == 0 {
 		raw = append([]byte{0x90, 0x00}, h.vt.Bytes(h.rng.Intn(30))...)
 	}
-	h.do(fmt.Sprintf("m %s %d junk", k, len(raw)), func() { c.sendRaw(raw) })
+	h.do(fmt.Sprintf("m %s %d junk", k, len(raw)), func() {
+		c.sendRaw(raw)
+		for _, r := range more {
+			c.sendRaw(r)
+		}
+	})
 }
 
 func (h *h2Hist) opPeerData() {
@@ -890,7 +919,11 @@ func runH2History(t *testing.T, vt *vhT, seed int64, nOps int) {
 		lis := []*h2Listener{l0}
 		h.tcpMode = rng.Intn(4) == 0 || os.Getenv("VERIF_H2_MODE") == "tcp"
 		if rng.Intn(2) == 0 || h.tcpMode {
-			lis = append(lis, &h2Listener{stream: true, ip: net.ParseIP("10.0.0.1").To4(), vetoed: vetoed[:1], vetoedFor: vetoedFor})
+			sl := &h2Listener{stream: true, ip: net.ParseIP("10.0.0.1").To4(), vetoed: vetoed[:1], vetoedFor: vetoedFor}
+			if rng.Intn(3) == 0 { // bound to the wildcard address; clients still connect to 10.0.0.1
+				sl.ip, sl.unspec, sl.dialIP = net.IPv4zero.To4(), true, net.ParseIP("10.0.0.1").To4()
+			}
+			lis = append(lis, sl)
 		}
 		w := newH2World(vt, cfg, lis, withAuth, withQuota)
 		h.w = w
@@ -924,6 +957,15 @@ func runH2History(t *testing.T, vt *vhT, seed int64, nOps int) {
 			if l.ip.To4() == nil {
 				fam = 2
 			}
+			unspec := l.unspec
+			if l.stream && l.dialIP != nil {
+				// the handlers see the accepted connection's local address, which is the concrete address dialled
+				unspec = false
+				fam = 1
+				if l.dialIP.To4() == nil {
+					fam = 2
+				}
+			}
 			vf := "-"
 			if len(l.vetoedFor) > 0 {
 				var ps []string
@@ -932,7 +974,7 @@ func runH2History(t *testing.T, vt *vhT, seed int64, nOps int) {
 				}
 				vf = strings.Join(ps, ",")
 			}
-			vt.Op("lis %d %d %d %s %s", b(l.stream), fam, b(l.unspec), strings.Join(vs, ","), vf)
+			vt.Op("lis %d %d %d %s %s", b(l.stream), fam, b(unspec), strings.Join(vs, ","), vf)
 			vt.Obs("ok")
 		}
 		h.cpool = []*net.UDPAddr{{IP: net.ParseIP("10.0.0.2").To4(), Port: 4000}, {IP: net.ParseIP("10.0.0.2").To4(), Port: 4001},
